@@ -236,6 +236,27 @@ def check_registry(ctx):
     ctx.expect(paths, ret=4)
 
 
+def check_create_throw(ctx):
+    from specs.C19 import install_exc
+    install_exc(ctx.eng)
+    b0 = ctx.sandbox_base(32, "b0", aligned=False)
+    paths = ctx.run("k_create_throw", [b0])
+    seen = set()
+    for q in paths:
+        lg = q.user.get("log") or []
+        t = [e for e in lg if e[0] == 70]
+        threw = bool(t) and conc(t[0][1]) == 1
+        seen.add(threw)
+        if q.status != "ret":
+            ctx.fail(q, "after a creation attempt that %s the object could not be %s: %s %s" % ("threw" if threw else "succeeded", "created again and destroyed" if threw else "destroyed", q.status, q.info))
+            continue
+        r = [e for e in lg if e[0] == 71]
+        ctx.require(q, z3.BoolVal((not threw) or (bool(r) and conc(r[0][1]) == 1)), "a creation attempt that failed by throwing leaves the object not created: the next attempt succeeds")
+    if seen != {True, False}:
+        ctx.inconclusive.append("k_create_throw: did not see both a successful and a throwing creation")
+    ctx.expect(paths, ret=2)
+
+
 def jobs(tier, seed):
     depth = 3 if tier == "quick" else 4
     src = '#include "C14_hist.inc"\n'
@@ -244,6 +265,7 @@ def jobs(tier, seed):
              Job("C14_recreate_cb", src, [dict(name="re-creation: callback registrations", fn=check_recreate_cb, unwind=400)], native=False, flags=fl),
              Job("C14_recreate_sym", src, [dict(name="re-creation: cached symbol addresses", fn=check_recreate_sym, unwind=400)], native=False, flags=fl)]
     from specs import C13
+    extra.append(Job("C14_create_throw", '#include "C14_exc.inc"\n', [dict(name="creation that fails by throwing", fn=check_create_throw, unwind=400)], native=False, flags=fl))
     extra.append(Job("C14_noop_recreate", C13.NOOP + '#include "C13_full.inc"\n', [dict(name="noop second incarnation (callbacks)", fn=C13.check_recreate, unwind=400)], native=False))
     extra.append(Job("C14_dylib_recreate", C13.DYLIB + '#include "C13_full.inc"\n', [dict(name="dylib second incarnation (callbacks)", fn=C13.check_recreate, unwind=400)],
                      native=False, flags=fl))
